@@ -15,6 +15,9 @@ type region struct {
 	srcStart *Poly
 	zero     bool
 	eff      *Effect
+	conv     int      // number of conversions applied to the copied element (0: a plain copy)
+	stride   int64    // > 1: positions start, start+stride, ... (count of them); merged by normalizeRegions
+	loop     *LoopCtx // the loop a strided region belongs to
 }
 
 // regionOf turns an element-writing effect into a region; ok=false when the
@@ -22,12 +25,54 @@ type region struct {
 func regionOf(e *Effect) (region, bool) {
 	switch e.Kind {
 	case EStoreElem:
+		if len(e.Loops) == 0 {
+			// a single store outside any loop (a peeled first or last iteration): a region of one position
+			r := region{stor: e.Stor, start: normInt(e.Idx), count: polyConst(big.NewInt(1)), eff: e}
+			v := valTerm(e.Val)
+			if v == nil {
+				return region{}, false
+			}
+			inner, n := stripConv(v)
+			if inner.Op == OpElem && n <= 1 {
+				r.srcStor, r.srcStart, r.conv = inner.Stor, normInt(inner.Args[0]), n
+				return r, true
+			}
+			if z, ok := normIntConst(v); ok && z == 0 {
+				r.zero = true
+				return r, true
+			}
+			return region{}, false
+		}
 		if len(e.Loops) != 1 {
 			return region{}, false
 		}
 		l := e.Loops[0]
 		idx := normInt(e.Idx)
 		co, other := idx.coefOf(l.K)
+		if !other && co.IsInt64() && co.Int64() > 1 && l.TripPoly != nil {
+			// one of the stores of a loop that consumes several positions per iteration
+			st := co.Int64()
+			r := region{stor: e.Stor, start: idx.Sub(normInt(l.K).Scale(co)), count: l.TripPoly, eff: e, stride: st, loop: l}
+			v := valTerm(e.Val)
+			if v == nil {
+				return region{}, false
+			}
+			inner, n := stripConv(v)
+			if inner.Op == OpElem && n <= 1 {
+				si := normInt(inner.Args[0])
+				sc, so := si.coefOf(l.K)
+				if so || sc.Cmp(co) != 0 {
+					return region{}, false
+				}
+				r.srcStor, r.srcStart, r.conv = inner.Stor, si.Sub(normInt(l.K).Scale(co)), n
+				return r, true
+			}
+			if z, ok := normIntConst(v); ok && z == 0 {
+				r.zero = true
+				return r, true
+			}
+			return region{}, false
+		}
 		if !other && co.Cmp(big.NewInt(-1)) == 0 {
 			// a descending walk: the order of the stores cannot matter when every store writes the same
 			// constant (a zero fill); positions idx(k), k = trip-1 .. 0
@@ -45,13 +90,13 @@ func regionOf(e *Effect) (region, bool) {
 			return region{}, false
 		}
 		inner, n := stripConv(v)
-		if inner.Op == OpElem && n == 0 {
+		if inner.Op == OpElem && n <= 1 {
 			si := normInt(inner.Args[0])
 			co, other := si.coefOf(l.K)
 			if other || co.Cmp(bigOne) != 0 {
 				return region{}, false
 			}
-			r.srcStor, r.srcStart = inner.Stor, si.Sub(normInt(l.K))
+			r.srcStor, r.srcStart, r.conv = inner.Stor, si.Sub(normInt(l.K)), n
 			return r, true
 		}
 		if z, ok := normIntConst(v); ok && z == 0 {
@@ -187,7 +232,7 @@ func checkC03(c *Checker) {
 			okCopy = true
 		}
 		for _, r := range regs {
-			if r.stor == target && r.start.Equal(normInt(dst.lenT())) && r.count.Equal(normInt(src.lenT())) && r.srcStor != nil && r.srcStor.Name == src.stor() && r.srcStart.IsZero() && !okCopy {
+			if r.stor == target && r.conv == 0 && r.start.Equal(normInt(dst.lenT())) && r.count.Equal(normInt(src.lenT())) && r.srcStor != nil && r.srcStor.Name == src.stor() && r.srcStart.IsZero() && !okCopy {
 				okCopy = true
 				continue
 			}
@@ -384,6 +429,99 @@ func casesOf(t *Term, f *Facts, depth int) []termCase {
 		g := f.clone()
 		g.add(c.Not())
 		out = append(out, casesOf(t.Args[2], g, depth+1)...)
+	}
+	return out
+}
+
+// normalizeRegions merges the strided stores of an unrolled loop into one contiguous region (all residues 0..s-1
+// present, same loop, same kind) and then joins regions that are adjacent in the destination (and, for copies, in
+// the source). Regions it cannot simplify are returned unchanged.
+func normalizeRegions(regs []region, f *Facts) []region {
+	var out []region
+	used := make([]bool, len(regs))
+	for i, a := range regs {
+		if used[i] || a.stride <= 1 {
+			continue
+		}
+		group := []int{i}
+		for j := i + 1; j < len(regs); j++ {
+			b := regs[j]
+			if !used[j] && b.stride == a.stride && b.loop == a.loop && b.stor == a.stor && b.zero == a.zero && b.srcStor == a.srcStor && b.conv == a.conv {
+				group = append(group, j)
+			}
+		}
+		if int64(len(group)) != a.stride {
+			continue
+		}
+		// the smallest start is the base; the others must be base+1 .. base+s-1 (and likewise in the source)
+		base := a
+		for _, j := range group {
+			if d, ok := regs[j].start.Sub(base.start).IsConst(); ok && d.Sign() < 0 {
+				base = regs[j]
+			}
+		}
+		seen := map[int64]bool{}
+		okG := true
+		for _, j := range group {
+			d, ok := regs[j].start.Sub(base.start).IsConst()
+			if !ok || !d.IsInt64() || d.Int64() < 0 || d.Int64() >= a.stride || seen[d.Int64()] {
+				okG = false
+				break
+			}
+			if base.srcStor != nil {
+				sd, ok2 := regs[j].srcStart.Sub(base.srcStart).IsConst()
+				if !ok2 || sd.Cmp(d) != 0 {
+					okG = false
+					break
+				}
+			}
+			seen[d.Int64()] = true
+		}
+		if !okG {
+			continue
+		}
+		for _, j := range group {
+			used[j] = true
+		}
+		m := base
+		m.stride, m.loop = 0, nil
+		m.count = base.count.Scale(big.NewInt(a.stride))
+		out = append(out, m)
+	}
+	for i, a := range regs {
+		if !used[i] {
+			out = append(out, a)
+		}
+	}
+	// join adjacent regions
+	eq := func(p, q *Poly) bool {
+		if p.Equal(q) {
+			return true
+		}
+		return f != nil && eqUnder(p.toTerm(), q.toTerm(), f)
+	}
+	for changed := true; changed; {
+		changed = false
+	outer:
+		for i := range out {
+			for j := range out {
+				a, b := out[i], out[j]
+				if i == j || a.stride > 1 || b.stride > 1 || a.stor != b.stor || a.zero != b.zero || a.srcStor != b.srcStor || a.conv != b.conv {
+					continue
+				}
+				if !eq(b.start, a.start.Add(a.count)) {
+					continue
+				}
+				if a.srcStor != nil && !eq(b.srcStart, a.srcStart.Add(a.count)) {
+					continue
+				}
+				a.count = a.count.Add(b.count)
+				out[i] = a
+				out = append(out[:j], out[j+1:]...)
+				changed = true
+				break outer
+			}
+		}
 	}
 	return out
 }
